@@ -5,8 +5,10 @@ import common
 import machine
 
 ID = "C03"
-LEAN_MODULES = ["QProps.C03", "QProps.C03x", "QProps.C05h", "QProps.C03g"]
+LEAN_MODULES = ["QProps.C03", "QProps.C03x", "QProps.C05h", "QProps.C03g", "QProps.C05x"]
 THEOREMS = [
+    "MM.compExch_not_accepted_atoms",
+    "MM.gc_mixed_history_x",
     "MM.fail_restores",
     "MM.fail_restores_cell",
     "MM.fail_restores_ham",
